@@ -66,6 +66,8 @@ theorem inv_step {env : Env} (he : EnvOk env) {s : St} (hi : Inv env s) (op : Op
     cases h : structOf s b kept with
     | none => exact hi
     | some r => exact (doKeep_spec (structOf_spec hi b kept r h).1 r.2 b key).1
+  | other b => exact hi
+  | applyBad b key => exact (getMocker_spec hi b key).1
 
 /-- **Invariant, all histories.** It holds after every finite history from the pristine state. -/
 theorem reachable_inv {env : Env} (he : EnvOk env) (ops : List Op) : ∀ {s : St}, Inv env s → Inv env (run env s ops) := by
@@ -118,6 +120,87 @@ theorem reset_restores {env : Env} (he : EnvOk env) (ops : List Op) (b : Nat) (k
   show behaviour env (cancelKeys (run env (init env) ops) b ks) nCb (key % 1000) = .orig
   unfold behaviour
   rw [h]; simp
+
+/-- **Reset — the whole step, both cache levels — restores.**  After any history, `Reset b` leaves byte-for-byte pristine (class
+    `orig`) every function patched by a mocker that is in the builder's own cache or in the child cache of the builder's struct
+    mocker (`Struct(x).Method` / `ExportMethod` / `ExportStruct(..).Method`).  This is the provable part of the clause "after a
+    builder's Reset every function it mocked is restored": see `ResetRestoresAll` below for the full statement, which is false
+    for a mocker the builder has replaced in its cache (Findings/C02Orphan.lean). -/
+theorem reset_step_restores {env : Env} (he : EnvOk env) (ops : List Op) (b key id g o nCb : Nat)
+    (hc : (run env (init env) ops).cache b key = some id ∨
+          ((run env (init env) ops).scache b = some o ∧ (run env (init env) ops).cache o key = some id))
+    (hg : ((run env (init env) ops).mockers id).guard = some g)
+    (ha : ((run env (init env) ops).guards g).applied = true) :
+    let s' := (step env (run env (init env) ops) (.reset b)).1
+    s'.text (key % 1000) = env.pristine (key % 1000) ∧ behaviour env s' nCb (key % 1000) = .orig := by
+  intro s'
+  have hi := reachable_inv_init he ops
+  have htext : (resetB (run env (init env) ops) b).text (key % 1000) = env.pristine (key % 1000) := by
+    generalize run env (init env) ops = s0 at hi hc hg ha
+    obtain ⟨ia, _, ca, ka, ga, ma, _, ra, _⟩ := cancelKeys_spec he b (s0.keys b) hi
+    unfold resetB
+    cases hs : s0.scache b with
+    | none =>
+      rcases hc with h | ⟨h, _⟩
+      · exact ra key (hi.ck b key id h).2.1 id g h hg ha
+      · rw [hs] at h; cases h
+    | some o' =>
+      simp only []
+      obtain ⟨_, tb, _, _, _, _, _, rb, _⟩ := cancelKeys_spec he o' ((cancelKeys s0 b (s0.keys b)).keys o') ia
+      rcases hc with h | ⟨h, h2⟩
+      · rcases tb (key % 1000) with e | e
+        · rw [e]; exact ra key (hi.ck b key id h).2.1 id g h hg ha
+        · exact e
+      · rw [hs] at h; cases h
+        exact rb key (by rw [ka]; exact (hi.ck _ key id h2).2.1) id g (by rw [ca]; exact h2) (by rw [(ma id).2.1]; exact hg)
+          (by rw [ga]; exact ha)
+  refine ⟨htext, ?_⟩
+  show behaviour env (resetB (run env (init env) ops) b) nCb (key % 1000) = .orig
+  unfold behaviour
+  rw [htext]; simp
+
+/-- the builder an operation is issued on -/
+def opBuilder : Op → Nat
+  | .apply b _ _ _ | .ret b _ _ | .cancel b _ | .reset b | .keep b _ | .applyH b _ _ | .retH b _ | .cancelH b _ | .keepS b
+  | .sapply b _ _ _ _ | .sret b _ _ _ | .scancel b _ _ | .skeep b _ _ | .other b | .applyBad b _ => b
+
+/-- **The Reset clause at full strength** (one builder): after any history that uses only builder `b`, `Reset b` leaves every
+    function byte-for-byte pristine.  NOT a theorem: it is false for goom as it is (a kept handle that was cancelled, replaced in
+    the builder's cache by a fresh lookup and then applied again is unknown to `Reset`) — `Findings.not_resetRestoresAll`.
+    The proved part is `reset_step_restores` (= `reset_restores_partial`): everything still in the builder's caches. -/
+def ResetRestoresAll (env : Env) : Prop :=
+  ∀ (ops : List Op) (b : Nat), (∀ op, op ∈ ops → opBuilder op = b) →
+    ∀ f, (step env (run env (init env) ops) (.reset b)).1.text f = env.pristine f
+
+theorem reset_restores_partial {env : Env} (he : EnvOk env) (ops : List Op) (b key id g o : Nat)
+    (hcached : (run env (init env) ops).cache b key = some id ∨
+          ((run env (init env) ops).scache b = some o ∧ (run env (init env) ops).cache o key = some id))
+    (hg : ((run env (init env) ops).mockers id).guard = some g)
+    (ha : ((run env (init env) ops).guards g).applied = true) :
+    (step env (run env (init env) ops) (.reset b)).1.text (key % 1000) = env.pristine (key % 1000) :=
+  (reset_step_restores he ops b key id g o 0 hcached hg ha).1
+
+/-- **A mocker's Cancel restores** (`b.Func(f).Cancel()`, `Struct(x).Method(m).Cancel()` … with `o` the cache owner): if the
+    owner's live (not cancelled) entry for the key holds an applied guard, the target is byte-for-byte pristine afterwards. -/
+theorem cancel_restores {env : Env} (he : EnvOk env) {s : St} (hi : Inv env s) (o key id g nCb : Nat)
+    (hc : s.cache o key = some id) (hn : (s.mockers id).canceled = false)
+    (hg : (s.mockers id).guard = some g) (ha : (s.guards g).applied = true) :
+    (doCancel s o key).text (key % 1000) = env.pristine (key % 1000) ∧ behaviour env (doCancel s o key) nCb (key % 1000) = .orig := by
+  have hget : getMocker s o key = (s, id) := by unfold getMocker; simp [hc, hn]
+  have ht := (hi.ck o key id hc).1
+  have h : (doCancel s o key).text (key % 1000) = env.pristine (key % 1000) := by
+    unfold doCancel
+    rw [hget]
+    have := (cancelMocker_spec he hi id).2.2.2.1 g hg ha
+    rw [ht] at this; exact this
+  exact ⟨h, by unfold behaviour; rw [h]; simp⟩
+
+/-- the same through a kept handle: `m.Cancel()` -/
+theorem cancelH_restores {env : Env} (he : EnvOk env) {s : St} (hi : Inv env s) (b key id g : Nat)
+    (hh : s.handle b key = some id) (hg : (s.mockers id).guard = some g) (ha : (s.guards g).applied = true) :
+    (step env s (.cancelH b key)).1.text (s.mockers id).target = env.pristine (s.mockers id).target := by
+  simp only [step, hh]
+  exact (cancelMocker_spec he hi id).2.2.2.1 g hg ha
 
 /-- the list `Reset` actually ranges over covers the builder's cache -/
 theorem reset_covers_cache {env : Env} (he : EnvOk env) (ops : List Op) (b key id : Nat)
@@ -187,7 +270,9 @@ theorem other_targets_untouched {env : Env} (he : EnvOk env) {s : St} (hi : Inv 
       | .sapply _ key _ _ _ => key % 1000 ≠ f
       | .sret _ key _ _ => key % 1000 ≠ f
       | .scancel _ key _ => key % 1000 ≠ f
-      | .skeep _ _ _ => True) →
+      | .skeep _ _ _ => True
+      | .other _ => True
+      | .applyBad _ _ => True) →
     (step env s op).1.text f = s.text f := by
   cases op with
   | apply b key k origin => intro hne; exact (doApply_spec he hi b key k origin).2 f hne
@@ -269,6 +354,8 @@ theorem other_targets_untouched {env : Env} (he : EnvOk env) {s : St} (hi : Inv 
       obtain ⟨ir, tr⟩ := structOf_spec hi b kept r h
       simp only []
       rw [(doKeep_spec ir r.2 b key).2, tr]
+  | other b => intro _; rfl
+  | applyBad b key => intro _; exact congrFun (getMocker_spec hi b key).2.1 f
 
 /-- **Looking the struct mocker up again returns the same one.**  `b.Struct(x)` hands out the cached `*CachedMethodMocker`
     as long as its `Canceled()` is false — also before its first `.Method()` call, when it has no children yet — so mocks
@@ -703,6 +790,11 @@ example : let s := run exEnv (init exEnv) [.keepS 0, .sapply 0 2007 1 none true,
 example : let s := run exEnv (init exEnv) [.keepS 0, .sapply 0 2007 1 none false]
     s.scache 0 = some 100 ∧ s.shandle 0 = some 100 ∧
     (step exEnv (step exEnv s (.reset 0)).1 (.sapply 0 2007 2 none true)).2 = none := by decide
+
+/-- hypotheses of `reset_step_restores` (struct level) and `cancel_restores` -/
+example : let s := run exEnv (init exEnv) [.sapply 0 2007 1 none false, .apply 0 3 2 none]
+    s.scache 0 = some 100 ∧ s.cache 100 2007 = some 0 ∧ (s.mockers 0).guard = some 0 ∧ (s.guards 0).applied = true ∧
+    s.cache 0 3 = some 1 ∧ (s.mockers 1).canceled = false ∧ (s.mockers 1).guard = some 1 ∧ (s.guards 1).applied = true := by decide
 
 example : 13 < exEnv.funcSize (3 % 1000) ∧ Gen.Amd64.checkAlreadyPatch ((exEnv.pristine (3 % 1000)).take 13) = false := by decide
 
